@@ -447,3 +447,142 @@ def gen_text(seed, tier, sized=0.0, aligns=0.3):
 
 def gen_text_sized(seed, tier):
     return gen_text(seed, tier, sized=0.35, aligns=0.6)
+
+
+def latin1_str(bs):
+    return "".join(chr(b) for b in bs)
+
+
+def gen_csv(seed, tier):
+    """C05: tables whose texts are arbitrary byte strings (Latin-1 transport)."""
+    rng = random.Random(seed * 2038074743 + 5)
+    n = 400 if tier == "quick" else 10000
+    specials = [0x22, 0x2c, 0x0d, 0x0a, 0x00, 0xff, 0xc3, 0xa9, 0x20, 0x27, 0x5c, 0x3b, 0x09]
+
+    def bstr():
+        k = rng.choice([0, 1, 1, 2, 3, 5, 9])
+        return latin1_str(rng.choice(specials) if rng.random() < 0.6 else rng.randrange(256) for _ in range(k))
+
+    def item():
+        r = rng.random()
+        if r < 0.8:
+            return S(bstr())
+        if r < 0.9:
+            return {"k": "obj", "caps": ["String"], "strv": bstr()}
+        return {"k": "nil"}
+    out = []
+    for i in range(n):
+        b = GridBuilder(rng)
+        build_table(rng, b, rng.randint(0, 5), rng.randint(0, 6), item)
+        b.ops.append({"op": "wrap", "kind": "csv", "over": {"t": 1}})
+        b.ops.append({"op": "render", "w": 1, "entry": rng.choice(["Render", "RenderTo"])})
+        if rng.random() < 0.3:
+            b.ops.append({"op": "render", "pkg": "csv", "t": 1, "entry": "Render"})
+        out.append(b.ops)
+    return out
+
+
+HOSTILE_HTML = ["<", ">", "&", "\"", "'", "&amp;", "&lt", "&#60;", "</td>", "<script>alert(1)</script>", "</script>", "<style>", "<!--",
+                "-->", "]]>", "`", "=", "a b", "javascript:alert(1)", "plain", "日本", "<td>", "\" onclick=\"x", "' onmouseover='x",
+                "&nbsp;", "&#x3c;b&#x3e;", "a<b>c", "{{.}}", "x&y", "\t", "<img src=x onerror=y>", "</table>", "", "line\nbreak", " lead", "trail ", "\r"]
+
+
+def gen_html(seed, tier):
+    """C06: markup-hostile strings in every context (th, td, caption, id, class, row class)."""
+    rng = random.Random(seed * 694847539 + 6)
+    n = 400 if tier == "quick" else 10000
+    out = []
+
+    def hs():
+        return "".join(rng.choice(HOSTILE_HTML) for _ in range(rng.choice([1, 1, 2, 3])))
+    for i in range(n):
+        b = GridBuilder(rng)
+        build_table(rng, b, rng.randint(0, 4), rng.randint(0, 6), lambda: S(hs()) if rng.random() < 0.9 else rnd_item(rng, HOSTILE_HTML))
+        b.ops.append({"op": "wrap", "kind": "html", "over": {"t": 1}})
+        if rng.random() < 0.8:
+            b.ops.append({"op": "htmlopts", "w": 1, "id": hs() if rng.random() < 0.6 else "", "class": hs() if rng.random() < 0.6 else "",
+                          "caption": hs() if rng.random() < 0.6 else "", "gen": 1 if rng.random() < 0.6 else 0,
+                          "genvals": [hs() for _ in range(rng.randint(0, 3))]})
+        for _ in range(rng.randint(1, 2)):
+            b.ops.append({"op": "render", "w": 1, "entry": rng.choice(["Render", "RenderTo"])})
+        out.append(b.ops)
+    return out
+
+
+JSON_TEXTS = ["\"", "\\", "\\\"", "\b\f", "\t", "\x01", "<>&", " ", " ", "\U0001F600", "key", "a b", "é", "{\"a\":1}", "[1]",
+              "null", "true", "12", "very long key " * 4, "/", "\x7f", "", "k1", "k2", "k3", "line\nbreak"]
+JSON_OTHERS = ["int42", "int0", "negint", "int64big", "uint8", "float", "floatexp", "true", "false", "named", "namedempty", "bytes",
+               "struct", "structptr", "hidden", "strhidden", "strhiddenempty", "map", "emptymap", "slice", "emptyslice", "marshaler",
+               "nilptr", "error", "chan", "nan"]
+
+
+def gen_json(seed, tier):
+    """C07: headers of arbitrary text (sometimes empty / duplicate / too few), items of every JSON kind,
+    separators in every position, every skipable assignment."""
+    rng = random.Random(seed * 256203221 + 7)
+    n = 400 if tier == "quick" else 10000
+    out = []
+    for i in range(n):
+        b = GridBuilder(rng)
+        ncols = rng.randint(0, 4)
+        good = rng.random() < 0.75
+        if good and ncols:
+            hdr = rng.sample([t for t in JSON_TEXTS if t != ""], ncols)
+        else:
+            hdr = [rng.choice(JSON_TEXTS) for _ in range(rng.randint(0, ncols + 1))]
+        if good or rng.random() < 0.7:
+            b.ops.append({"op": "headers", "t": 1, "items": [S(h) for h in hdr]})
+
+        def item():
+            r = rng.random()
+            if r < 0.35:
+                return S(rng.choice(JSON_TEXTS))
+            if r < 0.7:
+                w = rng.choice(JSON_OTHERS)
+                if w in ("chan", "nan") and rng.random() < 0.7:
+                    w = "int42"
+                return {"k": "other", "which": w}
+            if r < 0.8:
+                return {"k": "nil"}
+            if r < 0.9:
+                return rnd_obj(rng, JSON_TEXTS)
+            return {"k": "cell", "inner": S(rng.choice(JSON_TEXTS))}
+        for _ in range(rng.randint(0, 6)):
+            if rng.random() < 0.3:
+                b.ops.append({"op": "sep", "t": 1})
+                b.rows.append({"sep": True, "n": 0, "tbl": 1})
+            else:
+                k = rng.randint(0, ncols) if good else rng.randint(0, ncols + 1)
+                b.ops.append({"op": "rowitems", "t": 1, "items": [item() for _ in range(k)]})
+                b.rows.append({"sep": False, "n": k, "tbl": 1})
+        maxc = max([len(hdr) if b.ops and b.ops[1:2] and b.ops[1].get("op") == "headers" else 0] + [r["n"] for r in b.rows] + [0])
+        for c in range(0, maxc + 1):
+            if rng.random() < 0.3:
+                b.ops.append({"op": "setprop", "owner": {"kind": "column", "t": 1, "n": c}, "k": "k_skip",
+                              "v": rng.choice(["vtrue", "vtrue", "vfalse", "vbad" if rng.random() < 0.3 else "vtrue"])})
+        b.ops.append({"op": "wrap", "kind": "json", "over": {"t": 1}})
+        b.ops.append({"op": "render", "w": 1, "entry": rng.choice(["Render", "RenderTo"])})
+        out.append(b.ops)
+    return out
+
+
+MD_TEXTS = ["|", "\\|", "\\", "a\\", "<br>", "&#x7c;", "&amp;", "`code`", "*em*", "_", "日本", "a|b|c", "||", "<b>x</b>", "\"q\"", "'s'", "&",
+            "&lt;", "  spaced  ", "[l](u)", "![i](u)", "---", ":--:", "#", "plain text", "\t", "", "two\nlines", "\n", "trail\n", "ｗｉｄｅ", "x"]
+
+
+def gen_md(seed, tier):
+    """C08: markdown-hostile texts (no CR), ragged and zero-cell rows and headers, every alignment assignment."""
+    rng = random.Random(seed * 179424673 + 8)
+    n = 400 if tier == "quick" else 10000
+    out = []
+    for i in range(n):
+        b = GridBuilder(rng)
+        ncols = build_table(rng, b, rng.randint(0, 5), rng.randint(0, 6),
+                            lambda: S("".join(rng.choice(MD_TEXTS) for _ in range(rng.choice([1, 1, 2])))), hdr_p=0.9)
+        for c in range(0, ncols + 1):
+            if rng.random() < 0.4:
+                b.ops.append({"op": "setprop", "owner": {"kind": "column", "t": 1, "n": c}, "k": "k_align", "v": rng.choice(["vL", "vR", "vC"])})
+        b.ops.append({"op": "wrap", "kind": "md", "over": {"t": 1}})
+        b.ops.append({"op": "render", "w": 1, "entry": rng.choice(["Render", "RenderTo"])})
+        out.append(b.ops)
+    return out
